@@ -15,6 +15,7 @@ import (
 	"github.com/formancehq/ledger/verifx/minipg"
 	"github.com/formancehq/ledger/verifx/vx"
 	"github.com/formancehq/stack/libs/go-libs/metadata"
+	"github.com/formancehq/stack/libs/go-libs/query"
 	"github.com/uptrace/bun"
 	"github.com/uptrace/bun/dialect/pgdialect"
 )
@@ -134,6 +135,13 @@ type read struct {
 	Asset   string
 	Pit     *int64
 	TxID    int64
+	// oracle-only reads (Q == ""): the expanded transaction after toCore, the listings filtered by address
+	Expanded *ledger.ExpandedTransaction
+	Panic    string
+	Pattern  string
+	Key      string
+	IDs      []string
+	Count    int
 }
 
 func toTime(us int64) ledger.Time {
@@ -563,6 +571,24 @@ func (x *runner) observe(accepted []LogIn) {
 				}
 				x.reads = append(x.reads, read{Q: fmt.Sprintf("QTxPit %d%%N %s %s", ln, zc(id), zc(*p)), Cell: x.txCell(txp, err, "GetTransactionWithVolumes"), Kind: "tx-pit", Ledger: l, TxID: id, Pit: p})
 			}
+			if _, ok := txSeq[[2]string{l, fmt.Sprint(id)}]; ok {
+				// the transaction with its four volume maps, as the real Store returns it (row hydration toCore included)
+				rd := read{Kind: "tx-expanded", Ledger: l, TxID: id}
+				func() {
+					defer func() {
+						if p := recover(); p != nil {
+							rd.Panic = fmt.Sprint(p)
+						}
+					}()
+					etx, err := st.GetTransactionWithVolumes(x.ctx, ledgerstore.NewGetTransactionQuery(big.NewInt(id)).WithExpandVolumes().WithExpandEffectiveVolumes())
+					if err != nil {
+						x.fault = "GetTransactionWithVolumes(expand): " + err.Error()
+						return
+					}
+					rd.Expanded = etx
+				}()
+				x.reads = append(x.reads, rd)
+			}
 			if seq, ok := txSeq[[2]string{l, fmt.Sprint(id)}]; ok {
 				rows := x.query(fmt.Sprintf("select get_aggregated_volumes_for_transaction(%s, %d)", sqlStr(l), seq))
 				if len(rows) == 1 {
@@ -574,6 +600,7 @@ func (x *runner) observe(accepted []LogIn) {
 				}
 			}
 		}
+		x.listings(l, st)
 	}
 }
 
@@ -658,4 +685,47 @@ func runHistory(r *vx.Run, eng *minipg.Engine, h History, origin string) {
 	}
 	key, _ := json.Marshal(h)
 	r.Case(coqCase(h, nm, failed, x.reads), h, string(key), len(accepted) >= 3 && ntx >= 2 && nonEmptyVolumes)
+}
+
+var defaultPatterns = []string{"users::wallet", ":001:wallet", "users:001:wallet", "users:", "world", "::"}
+
+// listings filtered by an address pattern, through the real query builders and the real Store, executed by minipg
+func (x *runner) listings(l string, st *ledgerstore.Store) {
+	pats := x.h.Patterns
+	if len(pats) == 0 {
+		pats = defaultPatterns
+	}
+	for _, pat := range pats {
+		for _, key := range []string{"account", "source", "destination"} {
+			opts := ledgerstore.NewPaginatedQueryOptions(ledgerstore.PITFilterWithVolumes{}).WithPageSize(1000).WithQueryBuilder(query.Match(key, pat))
+			q := ledgerstore.NewGetTransactionsQuery(opts)
+			cur, err := st.GetTransactions(x.ctx, q)
+			if err != nil {
+				x.fault = fmt.Sprintf("GetTransactions(%s ~ %q): %v", key, pat, err)
+				return
+			}
+			rd := read{Kind: "list-transactions-by-address", Ledger: l, Pattern: pat, Key: key}
+			for _, t := range cur.Data {
+				rd.IDs = append(rd.IDs, t.ID.String())
+			}
+			n, err := st.CountTransactions(x.ctx, q)
+			if err != nil {
+				x.fault = fmt.Sprintf("CountTransactions(%s ~ %q): %v", key, pat, err)
+				return
+			}
+			rd.Count = n
+			x.reads = append(x.reads, rd)
+		}
+		opts := ledgerstore.NewPaginatedQueryOptions(ledgerstore.PITFilterWithVolumes{}).WithPageSize(1000).WithQueryBuilder(query.Match("address", pat))
+		cur, err := st.GetAccountsWithVolumes(x.ctx, ledgerstore.NewGetAccountsQuery(opts))
+		if err != nil {
+			x.fault = fmt.Sprintf("GetAccountsWithVolumes(address ~ %q): %v", pat, err)
+			return
+		}
+		rd := read{Kind: "list-accounts-by-address", Ledger: l, Pattern: pat, Key: "address"}
+		for _, a := range cur.Data {
+			rd.IDs = append(rd.IDs, a.Address)
+		}
+		x.reads = append(x.reads, rd)
+	}
 }
